@@ -72,6 +72,16 @@ func genC10(tier string, seed uint64) *simkit.Plan {
 		if c > 0 && r.Chance(0.25) {
 			st.From = 1 + r.Intn(c) // this entry was created by pin-update from an earlier one
 		}
+		// what a sharded add leaves in the pinset: shard entries (allocated, depth 1,
+		// or 2 when their link DAG is indirect) and a cluster-DAG entry (everywhere)
+		switch r.Pick(16, 3, 1) {
+		case 1:
+			st.Type, st.From, st.Direct = "shard", 0, false
+			st.N = r.Pick(3, 1) + 1
+		case 2:
+			st.Type, st.From, st.Direct = "cdag", 0, false
+			st.RMin, st.RMax, st.Allocs = -1, -1, nil
+		}
 		p.AddStep(st)
 	}
 	// the event(s)
@@ -177,6 +187,20 @@ func execC10(plan *simkit.Plan, run *simkit.Run) {
 			if s.From > 0 {
 				pin.PinUpdate = w.cids[(s.From-1)%len(w.cids)]
 				run.Probe("update_pin_in_pinset")
+			}
+			switch s.Type {
+			case "shard":
+				ref := simkit.TestCid(60 + s.Cid)
+				pin.Type, pin.Reference, pin.Mode = api.ShardType, &ref, api.PinModeRecursive
+				pin.MaxDepth = api.PinDepth(1)
+				if s.N == 2 {
+					pin.MaxDepth = 2
+					run.Probe("indirect_shard_in_pinset")
+				}
+				run.Probe("shard_in_pinset")
+			case "cdag":
+				ref := simkit.TestCid(61 + s.Cid)
+				pin.Type, pin.Reference, pin.MaxDepth, pin.Mode = api.ClusterDAGType, &ref, 0, api.PinModeDirect
 			}
 			if err := w.sh.State().Add(ctx, pin); err != nil {
 				panic(err)
@@ -405,6 +429,9 @@ func (w *world) judgeExpiry(before map[string]seeded, logStart int, syncAt time.
 		expired := hasExp && exp.Before(syncAt.Add(-time.Second))
 		clearlyNot := !hasExp || exp.After(time.Now().Add(time.Second))
 		switch {
+		case expired && (b.pin.Type == api.ShardType || b.pin.Type == api.ClusterDAGType):
+			// parts of a sharded add cannot be unpinned on their own: they go with their root
+			w.run.Probe("expired_shard_part_not_judged")
 		case expired && !follower:
 			w.run.Probe("expired_unpinned")
 			if unpins != 1 {
